@@ -100,6 +100,22 @@ func c04(r *ev.Run, pairMode bool) {
 		}
 		return totpValidate(c, key, nil, pairMode)
 	})
+	r.Scenario("totp-validate-history", func(raw []byte) (string, string) {
+		emptySyncPools()
+		obs := ""
+		for k, c := range unjson[[]c04Case](raw) {
+			v, key := ref.B32Classify(c.Secret)
+			if v != ref.MustAccept {
+				return "", ""
+			}
+			o, bad := totpValidate(c, key, nil, pairMode)
+			obs += o + ";"
+			if bad != "" {
+				return obs, fmt.Sprintf("step %d: %s", k, bad)
+			}
+		}
+		return obs, ""
+	})
 	r.Scenario("totp-validate-work", func(raw []byte) (string, string) {
 		c := unjson[c04Case](raw)
 		n := countDerivations(func() { callValidateTOTP(c) })
@@ -231,6 +247,62 @@ func c04(r *ev.Run, pairMode bool) {
 		r.DistinctS(fmt.Sprint("space", g.t, g.p, g.s, g.d, g.a, acc))
 	})
 	r.Set("complete_code_space_configs", len(sps))
+	// neighbouring-call histories on one goroutine (see C03): all ordered pairs A, B, A over calls differing in one argument
+	{
+		k0, k1 := keys[0], keys[1]
+		s0, s1 := spellings(k0)[0], spellings(k1)[0]
+		base := c04Case{s0, ref.HOTP(k0, ref.Step(1111111109, 30), 6, 0), 1111111109, 0, 30, 1, 6, 0, false}
+		fam := []struct {
+			c   c04Case
+			key []byte
+		}{{base, k0}}
+		add := func(f func(c *c04Case) []byte) {
+			c := base
+			key := f(&c)
+			if key == nil {
+				key = k0
+			}
+			fam = append(fam, struct {
+				c   c04Case
+				key []byte
+			}{c, key})
+		}
+		add(func(c *c04Case) []byte { c.Unix += 60; return nil }) // same code, two steps later: out of reach
+		add(func(c *c04Case) []byte { c.Unix -= 30; return nil }) // one step earlier: still in the window
+		add(func(c *c04Case) []byte { c.Unix -= 90; return nil }) // EARLIER instant after a later one
+		add(func(c *c04Case) []byte { c.Skew = 0; c.Unix += 30; return nil })
+		add(func(c *c04Case) []byte { c.Period = 60; return nil })
+		add(func(c *c04Case) []byte { c.Period = 0; return nil })
+		add(func(c *c04Case) []byte { c.Algo = 2; return nil })
+		add(func(c *c04Case) []byte {
+			c.Digits = 8
+			c.Code = ref.HOTP(k0, ref.Step(1111111109, 30), 8, 0)
+			return nil
+		})
+		add(func(c *c04Case) []byte { c.Secret = s1; return k1 })
+		add(func(c *c04Case) []byte { c.Code = "999999"; return nil })
+		add(func(c *c04Case) []byte { c.Nil = true; return nil })
+		var hn int64
+		for i := range fam {
+			for j := range fam {
+				emptySyncPools()
+				var cs []c04Case
+				obs := ""
+				for k, ix := range []int{i, j, i} {
+					cs = append(cs, fam[ix].c)
+					o, bad := totpValidate(fam[ix].c, fam[ix].key, nil, pairMode)
+					obs += o + ";"
+					hn++
+					if bad != "" {
+						r.Fail("totp-validate-history", fmt.Sprintf("step %d of the history (calls %d, %d, %d of the family): %s", k, i, j, i, bad), cs, "each call judged on its own arguments", obs)
+						break
+					}
+				}
+			}
+		}
+		r.Eval(hn)
+		r.Set("neighbouring_call_history_steps", hn)
+	}
 	// refused skews: (false, error), zero derivations; accepted skews: <= 2s+1 derivations
 	var wn int64
 	sec0 := spellings(keys[0])[0]
